@@ -192,6 +192,7 @@ def strip_bonding_descriptors(fragment_string):
                                                                      prev_node,
                                                                      rings)
             smile += part_str
+            current_order = None
         elif token in '] H . - = # $ : + -':
             smile += token
         # deal with ez isomers
